@@ -13,5 +13,5 @@ ASSUMPTIONS = [
 RULE = c05.RULE
 
 PREDS = ("c06_backoff_ok", "c06_cap_ok", "c06_emitted_live_ok", "c06_no_resend_acked", "c06_fast_retx_ok", "c06_stable_plen_ok",
-         "c06_joint_ok")
+         "c06_joint_ok", "c06_rp_exit_ok")
 COMPONENTS = [dict(c05.component("+".join(PREDS)), name="vsock_c06")]
